@@ -2,7 +2,7 @@
 
 use num_bigint::BigUint;
 use num_traits::Zero;
-use ruint::Uint;
+use ruint::{Bits, Uint};
 use vharness::*;
 
 /// run `$e` with `$x` = the amount cast to the primitive type selected by the type code
@@ -60,6 +60,10 @@ define_ops! {
     not_m = |a: U| Uint::not(a);
     not_v = |a: U| !a;
     not_r = |a: U| !&a;
+    // MEMORY LAYOUT: the same value at both addresses a u64-aligned type can have modulo 16, and two operands at different
+    // ones; every result must equal the one computed on plain locals
+    unary_layout = |a: U| { #[repr(C, align(16))] struct Off<T>(u64, T); #[repr(C, align(16))] struct Al<T>(T); let w = std::hint::black_box(Off(3, a)); let v = std::hint::black_box(Al(a)); let arr = std::hint::black_box([a, a, a]); let f = |x: &Uint<B, L>| (x.leading_zeros(), x.leading_ones(), x.trailing_zeros(), x.trailing_ones(), x.count_ones(), x.count_zeros(), (x.bit_len(), x.byte_len(), x.is_power_of_two(), x.reverse_bits(), !x, x.bit(B / 2), x.most_significant_bits())); let r = f(&a); (f(&w.1) == r, f(&v.0) == r, f(&arr[1]) == r, f(&arr[2]) == r) };
+    binary_layout = |a: U, b: U| { #[repr(C, align(16))] struct Off<T>(u64, T); #[repr(C, align(16))] struct Al<T>(T); let x = std::hint::black_box(Off(3, a)); let y = std::hint::black_box(Al(b)); let bx = std::hint::black_box(Off(3, Bits::from(a))); let by = std::hint::black_box(Al(Bits::from(b))); let arr = std::hint::black_box([Bits::from(a), Bits::from(b), Bits::from(a)]); let (e_and, e_or, e_xor) = (a & b, a | b, a ^ b); let u1 = (&x.1 & &y.0, &x.1 | &y.0, &x.1 ^ &y.0) == (e_and, e_or, e_xor); let u2 = (&y.0 & &x.1, &y.0 | &x.1, &y.0 ^ &x.1) == (e_and, e_or, e_xor); let u3 = { let mut t = std::hint::black_box(Off(3, a)); t.1 &= &y.0; let mut s = std::hint::black_box(Off(3, a)); s.1 |= &y.0; let mut r = std::hint::black_box(Off(3, a)); r.1 ^= &y.0; (t.1, s.1, r.1) == (e_and, e_or, e_xor) }; let b1 = ((&bx.1 & &by.0).into_inner(), (&bx.1 | &by.0).into_inner(), (&bx.1 ^ &by.0).into_inner()) == (e_and, e_or, e_xor); let b2 = ((&arr[0] & &arr[1]).into_inner(), (&arr[1] | &arr[2]).into_inner(), (&arr[0] ^ &arr[1]).into_inner()) == (e_and, e_or, e_xor); let b3 = { let mut t = std::hint::black_box(Off(3, Bits::from(a))); t.1 &= &by.0; let mut s = std::hint::black_box(Off(3, Bits::from(a))); s.1 |= &by.0; let mut r = std::hint::black_box(Off(3, Bits::from(a))); r.1 ^= by.0; (t.1.into_inner(), s.1.into_inner(), r.1.into_inner()) == (e_and, e_or, e_xor) }; (u1, u2, u3, b1, b2, b3) };
     and_vv = |a: U, b: U| a & b;
     and_vr = |a: U, b: U| a & &b;
     and_rv = |a: U, b: U| &a & b;
@@ -194,6 +198,8 @@ fn model(bits: usize, op: Op, args: &[V]) -> Expect {
             is(u(&rot, bits)).nt(k != 0)
         }
         not_m | not_v | not_r => is(u(&(&m - 1u32 - &a), bits)).nt(true),
+        unary_layout => is(V::T(vec![V::B(true); 4])).nt(true),
+        binary_layout => is(V::T(vec![V::B(true); 6])).nt(true),
         and_vv | and_vr | and_rv | and_rr | and_assign_v | and_assign_r => is(u(&(&a & big(args[1].limbs())), bits)).nt(true),
         or_vv | or_vr | or_rv | or_rr | or_assign_v | or_assign_r => is(u(&(&a | big(args[1].limbs())), bits)).nt(true),
         and_alias | or_alias => is(u(&a, bits)).nt(true),
@@ -418,13 +424,13 @@ fn c05(r: &Runner) {
 const C06_UN: &[Op] = &[
     Op::not_m, Op::not_v, Op::not_r, Op::reverse_bits, Op::leading_zeros, Op::leading_ones, Op::trailing_zeros, Op::trailing_ones, Op::count_ones,
     Op::count_zeros, Op::bit_len, Op::byte_len, Op::most_significant_bits, Op::is_power_of_two, Op::next_power_of_two, Op::checked_next_power_of_two,
-    Op::and_alias, Op::or_alias, Op::xor_alias,
+    Op::and_alias, Op::or_alias, Op::xor_alias, Op::unary_layout,
 ];
 /// one width per limb count 17..=24 (every residue of the limb count modulo 2, 4 and 8 above 16 limbs: tails of unrolled loops)
 const W_LADDER: &[usize] = &[1088, 1150, 1216, 1280, 1344, 1408, 1471, 1536];
 const C06_BIN: &[Op] = &[
     Op::and_vv, Op::and_vr, Op::and_rv, Op::and_rr, Op::and_assign_v, Op::and_assign_r, Op::or_vv, Op::or_vr, Op::or_rv, Op::or_rr, Op::or_assign_v,
-    Op::or_assign_r, Op::xor_vv, Op::xor_vr, Op::xor_rv, Op::xor_rr, Op::xor_assign_v, Op::xor_assign_r,
+    Op::or_assign_r, Op::xor_vv, Op::xor_vr, Op::xor_rv, Op::xor_rr, Op::xor_assign_v, Op::xor_assign_r, Op::binary_layout,
 ];
 
 fn c06(r: &Runner) {
